@@ -390,6 +390,9 @@ class Sink:
     def __init__(self, name, callee, want='ok', arg_filter=None, per_item=False):
         self.name = name
         self.callee = [callee] if isinstance(callee, str) else list(callee)
+        import core as _core
+        if _core.PATTERN_LOG is not None:
+            _core.PATTERN_LOG.update(self.callee)
         self.want = want
         self.arg_filter = arg_filter
         self.per_item = per_item
@@ -837,8 +840,41 @@ def fn_origins(fn, operand_or_local, through_calls=True, depth=0):
                     out.add(x)
         elif not fn.cor and re.match(r'^p#\d+', o):
             out.add('clarg' + o[1:])   # the closure's own argument, not a parameter of the parent
+            # ... which is an element of what the closure is applied to: `xs.iter().try_for_each(|x| ..)`, `.map(|x| ..)`
+            if depth <= 3:
+                out |= _closure_receiver_origins(fn, through_calls, depth)
         else:
             out.add(o)
+    return out
+
+
+ELEMENT_CLOSURE_CALLS = ('::try_for_each', '::for_each', '::all', '::any', '::map', '::filter', '::filter_map', '::find', '::find_map', '::position',
+                         '::flat_map', '::try_fold', '::fold', '::take_while', '::skip_while', '::inspect', '::retain', '::is_some_and', '::is_ok_and',
+                         '::and_then', '::map_or', '::map_or_else', '::then', '::sort_by_key', '::max_by_key', '::min_by_key')
+
+
+def _closure_receiver_origins(closure_fn, through_calls, depth):
+    """Origins (in the parent) of the collection / value a closure is applied to element-wise."""
+    par = closure_fn.parent
+    if par is None:
+        return set()
+    pb = par.body
+    out = set()
+    holders = set()
+    for b in pb.blocks:
+        for (_, pl, rv) in b.stmts:
+            if rv[0] == 'agg' and rv[1] == 'closure' and rv[2] == closure_fn.name and not pl[1]:
+                holders.add(pl[0])
+    # closures are usually passed by value directly; also through one move / reference
+    for b in pb.blocks:
+        for (_, pl, rv) in b.stmts:
+            if not pl[1] and rv[0] in ('use', 'ref') and ((rv[0] == 'use' and rv[1][0] in ('copy', 'move') and rv[1][1][0] in holders) or
+                                                       (rv[0] == 'ref' and rv[1][0] in holders)):
+                holders.add(pl[0])
+    for c in pb.calls():
+        if len(c.args) >= 2 and any(a[0] in ('copy', 'move') and a[1][0] in holders for a in c.args[1:]) \
+                and any(n.endswith(ELEMENT_CLOSURE_CALLS) for n in c.names()):
+            out |= fn_origins(par, c.args[0], through_calls, depth + 1)
     return out
 
 
